@@ -130,6 +130,23 @@ func init() {
 				cases = append(cases, c)
 			}
 		}
+		// gen_cov.go: several capabilities in one invocation, default expiration; validator.Claim with links
+		xw, xl := covExtraWorlds(o.seed, n, false)
+		for i, w := range xw {
+			c, _, err := runAndRender(w, st, xl[i])
+			if err != nil {
+				return err
+			}
+			labels[w.ID] = xl[i]
+			cases = append(cases, c)
+		}
+		claimCases, err := covClaimCases(o.seed, n+len(xw), st, labels)
+		if err != nil {
+			return err
+		}
+		if err := writeClaimCases(o.out, "cases_C01claim", claimCases); err != nil {
+			return err
+		}
 		shards := 16
 		if err := writeWorldCases(o.out, "cases_C01", cases, shards, "check_worlds"); err != nil {
 			return err
